@@ -96,6 +96,110 @@ def run_repoint_exhaustive(task):
     return res
 
 
+# ---------------- object storage: the conditional-write commit path has branches of its own ----------------
+@st.composite
+def s3_case(draw):
+    return {"kind": "s3meta", "ncommits": draw(st.integers(1, 6)), "after": draw(st.integers(1, 3)),
+            "pointer": draw(st.sampled_from(["intact", "legacy_number", "missing_file", "deleted", "garbage", "digits_missing"])),
+            "setprop": draw(st.booleans())}
+
+
+def check_s3(case):
+    """Commits on the fake S3 with conditional writes; in between the pointer object may be replaced by a dangling / legacy /
+    unparseable one (the commit path then numbers and logs from the version it recovered). The independent reader then checks
+    the well-formedness clauses that do not need a model: current snapshot retained, parents retained, sequence numbers
+    strictly increasing and <= last, snapshot_log in commit order over retained snapshots, metadata_log within its bound,
+    naming only EXISTING metadata files that were committed versions, in supersession order, never the current one."""
+    import copy
+
+    from ..hist import FIELDS
+    from ..reader import HINT, ReadError, read_view
+    from ..tbl import make_schema
+    from ..world import S3World
+
+    out = {"violations": [], "labels": ["s3-commit-path", f"pointer:{case['pointer']}"], "nontrivial": case["pointer"] != "intact"}
+    w = S3World(conditional=True)
+    committed = []
+
+    def note():
+        try:
+            committed.append(w.fs().get(HINT).decode().strip())
+        except Exception:
+            pass
+
+    def vio(b, what):
+        out["violations"].append((f"s3/{b}", f"S3 (conditional writes), pointer {case['pointer']} after {case['ncommits']} commits: {what}"))
+
+    with w.env():
+        t = w.create(make_schema(FIELDS))
+        note()
+        k = 0
+        for _ in range(case["ncommits"]):
+            k += 1
+            t.append_records([{"k": k, "s": f"r{k}"}])
+            note()
+        L = committed[-1]
+        key = w.key_prefix + "/" + HINT
+        import re as _re
+
+        vL = int(_re.match(r"v(\d+)", L).group(1))
+        payload = {"legacy_number": str(vL).encode(), "missing_file": f"v{vL}-deadbeef.metadata.json".encode(), "garbage": b"\x00garbage",
+                   "digits_missing": str(vL + 7).encode()}.get(case["pointer"])
+        if case["pointer"] == "deleted":
+            w.fake.objects.pop(key, None)
+        elif payload is not None:
+            w.fake.raw_put(key, payload)
+        import datashard
+
+        try:
+            t2 = datashard.load_table(w.location())
+            for _ in range(case["after"]):
+                k += 1
+                t2.append_records([{"k": k, "s": f"r{k}"}])
+                note()
+            if case["setprop"]:
+                mm = t2.metadata_manager
+                b = mm.refresh()
+                n_ = copy.deepcopy(b)
+                n_.properties["p"] = "v"
+                mm.commit(b, n_)
+                note()
+        except Exception as e:  # noqa - whether a damaged pointer is survivable is C10's subject
+            out["labels"].append(f"commit-after-damage-raised:{type(e).__name__}")
+            return out
+        try:
+            v = read_view(w.fs(), rows=False)
+        except ReadError as e:
+            vio("unreadable", str(e))
+            return out
+        md = v["raw"]
+        ids = [s_["id"] for s_ in v["snapshots"]]
+        if ids and md["current_snapshot_id"] not in ids:
+            vio("current-not-retained", f"current_snapshot_id {md['current_snapshot_id']} not among {ids}")
+        for s_ in v["snapshots"]:
+            if s_["parent"] not in (None, -1) and s_["parent"] not in ids:
+                vio("parent-dangling", f"snapshot {s_['id']} has parent {s_['parent']}")
+        seqs = [s_["seq"] for s_ in v["snapshots"]]
+        if any(b_ <= a_ for a_, b_ in zip(seqs, seqs[1:])) or any(q > md["last_sequence_number"] for q in seqs):
+            vio("sequence-order", f"sequence numbers {seqs}, last {md['last_sequence_number']}")
+        log_ids = [e["snapshot_id"] for e in md["snapshot_log"]]
+        if any(i not in ids for i in log_ids) or [i for i in ids if i in log_ids] != log_ids:
+            vio("snapshot-log", f"snapshot_log {log_ids} vs retained {ids}")
+        names = [e.get("metadata-file", "") for e in md["metadata_log"]]
+        hist = ["metadata/" + c for c in committed[:-1]]
+        for n_ in names:
+            if not w.fs().exists(n_):
+                vio("metadata-log-missing", f"metadata_log names {n_}, which does not exist")
+            elif n_ not in hist:
+                vio("metadata-log-not-superseded", f"metadata_log names {n_}, which was never a superseded committed version")
+        if len(names) > 100:
+            vio("metadata-log-bound", f"{len(names)} entries")
+        idx = [hist.index(n_) for n_ in names if n_ in hist]
+        if idx != sorted(idx) or len(set(idx)) != len(idx):
+            vio("metadata-log-order", f"{names}")
+    return out
+
+
 def plan(tier, seed):
     n = 400 if tier == "quick" else 4000
     tasks = [{"kind": "hist", "n": n, "seed": seed * 1000 + s, "tier": tier} for s in range(14)]
@@ -104,6 +208,7 @@ def plan(tier, seed):
     sh = 4 if tier == "quick" else 8
     for s in range(sh):
         tasks.append({"kind": "repoint", "n": 5, "shard": s, "nshard": sh})
+    tasks += [{"kind": "s3meta", "n": 40 if tier == "quick" else 500, "seed": seed * 1000 + 400 + s, "tier": tier} for s in range(4)]
     return tasks
 
 
@@ -111,11 +216,17 @@ def run_task(task):
     if task["kind"] == "repoint":
         return run_repoint_exhaustive(task)
     res = Result()
+    if task["kind"] == "s3meta":
+        campaign(s3_case(), check_s3, task["n"], task["seed"], res, PROP, shrink=False)
+        return res
     campaign(case_strategy(), check_history, task["n"], task["seed"], res, PROP, shrink=task["tier"] == "thorough")
     return res
 
 
 def replay(case):
+    if case.get("kind") == "s3meta":
+        o = check_s3(case)
+        return [{"bucket": b, "what": w} for b, w in o["violations"]]
     if case.get("kind") == "repoint":
         from datashard.snapshot_manager import repoint_parents_to_surviving_ancestors as repoint
         from datashard.data_structures import Snapshot
